@@ -264,7 +264,7 @@ def items_for(tier):
   # source-set family (defined with C08, where it drives the query-order phase): 4-node graphs, one origin per
   # binding with any source set of <=2 other bindings, <=1 conditioned node
   from vk.checks import c08
-  items += c08.ss_items(tier)
+  items += c08.ss_items("quick")   # the thorough family is run by C08 only (measured there); here both tiers use the two-route graphs
   return items
 
 
